@@ -4,6 +4,7 @@ from ..core import queries as Q
 from ..core.program import fmt_term, fmt_atom, CAST_OPS
 
 META = {
+    "technique": 'static analysis: repository-specific dataflow / guard-dominance / path rules over LLVM IR (CFG, SSA, resolved call graph, returned-constant summaries), plus the decoder tables shared with C04 (finite evaluation of parse_hex4, comparison constants of the escape decoder)',
     "explanation": (
         "(1) R-OWN on response slots: in every own function, on every path, a cJSON* response slot (local or out-parameter) "
         "that already holds a response object (assigned directly, or by a callee whose return class always assigns it) is not "
